@@ -42,7 +42,7 @@ pub fn run(ctx: &mut Ctx) {
     for (n, ok) in r2::selftest() {
         ctx.selftest(&n, ok);
     }
-    ctx.require(&["annex_kat", "fixed_nonce_exact", "free_nonce", "ref_made_accepted", "openssl_made_accepted", "id_default", "id_explicit", "id_empty", "id_8191", "id_too_long", "id_non_ascii_utf8", "msg_empty", "edge_key", "random_key", "e_ge_n", "key_from_constructor", "key_from_gen_keypair", "key_with_jacobian_public_point", "retry:r=0", "retry:r+k=n", "retry:s=0", "digest_regular", "id_len_threshold", "msg_beyond_2^16_bits"]);
+    ctx.require(&["annex_kat", "fixed_nonce_exact", "free_nonce", "ref_made_accepted", "openssl_made_accepted", "id_default", "id_explicit", "id_empty", "id_8191", "id_too_long", "id_non_ascii_utf8", "msg_empty", "edge_key", "random_key", "e_ge_n", "key_from_constructor", "key_from_gen_keypair", "key_with_jacobian_public_point", "retry:r=0", "retry:r+k=n", "retry:s=0", "digest_regular", "id_len_threshold", "msg_beyond_2^16_bits", "verifier_key_from_compressed_bytes"]);
     let c = r2::curve();
 
     // --- Annex example through the library with the nonce injected
@@ -299,7 +299,7 @@ fn fixed_case(ctx: &mut Ctx, d: &BigUint, id: Option<&'static str>, id_str: &str
 fn fixed_case_how(ctx: &mut Ctx, d: &BigUint, id: Option<&'static str>, id_str: &str, msg: &[u8], k: &BigUint, cls: &str, how: u64) {
     ctx.class(provenance(how));
     let mut pp = Prng::new(how, "prov");
-    let Some((_pk, sk)) = lib_keys(d, how, &mut pp) else {
+    let Some((prov_pk, sk)) = lib_keys(d, how, &mut pp) else {
         ctx.violation("Sm2PrivateKey::new:d-in-[1,n-2]:not-ok", json!({"d": hex::encode(r2::b32(d))}));
         return;
     };
@@ -331,6 +331,14 @@ fn fixed_case_how(ctx: &mut Ctx, d: &BigUint, id: Option<&'static str>, id_str: 
                 return;
             }
             check_accepts(ctx, &sk.public_key, id, id_str, msg, &sig, d, cls);
+            check_accepts(ctx, &prov_pk, id, id_str, msg, &sig, d, &format!("{}/provenance-public-key", cls));
+            // the signer's key as exported in compressed form must be the signer's point for any SEC1 reader
+            if let Outcome::Ret(b) = guard(|| sk.public_key.to_bytes(true)) {
+                ctx.eval();
+                if r2::decode(&b) != r2::mul(d, &r2::g()) {
+                    ctx.violation("sign:exported-compressed-public-key-is-not-[d]G", json!({"case": wit(d, id_str, msg, Some(k)), "exported": hex::encode(&b)}));
+                }
+            }
             // the relying party's key object: decoded from the encoded public key
             if let Outcome::Ret(b) = guard(|| sk.public_key.to_bytes(false)) {
                 if let Outcome::Ret(Ok(pk2)) = guard(|| gm_sm2::key::Sm2PublicKey::new(&b)) {
@@ -359,7 +367,7 @@ fn free_case_how(ctx: &mut Ctx, d: &BigUint, id: Option<&'static str>, id_str: &
     let c = r2::curve();
     ctx.class(provenance(how));
     let mut pp = Prng::new(how + 7, "prov");
-    let Some((_pk, sk)) = lib_keys(d, how, &mut pp) else {
+    let Some((prov_pk, sk)) = lib_keys(d, how, &mut pp) else {
         ctx.violation("Sm2PrivateKey::new:d-in-[1,n-2]:not-ok", json!({"d": hex::encode(r2::b32(d))}));
         return;
     };
@@ -390,6 +398,7 @@ fn free_case_how(ctx: &mut Ctx, d: &BigUint, id: Option<&'static str>, id_str: &
                 ctx.violation(&format!("sign:{}:nonce-used!=nonce-drawn", cls), json!({"case": wit(d, id_str, msg, None), "recovered": hex::encode(r2::b32(&k)), "drawn": seen.accepted.iter().map(|a| hex::encode(r2::b32(a))).collect::<Vec<_>>()}));
             }
             check_accepts(ctx, &sk.public_key, id, id_str, msg, &sig, d, cls);
+            check_accepts(ctx, &prov_pk, id, id_str, msg, &sig, d, &format!("{}/provenance-public-key", cls));
         }
         o => ctx.violation(&format!("sign:{}:{}", cls, oc(&o)), json!({"case": wit(d, id_str, msg, None)})),
     }
@@ -412,4 +421,13 @@ fn ref_made_case(ctx: &mut Ctx, d: &BigUint, id: Option<&'static str>, id_str: &
     ctx.class("ref_made_accepted");
     ctx.distinct("verify", &[&sig, msg]);
     check_accepts(ctx, &lpk, id, id_str, msg, &sig, d, "ref-made");
+    // a relying party that received the signer's key in compressed form
+    ctx.eval();
+    match guard(|| gm_sm2::key::Sm2PublicKey::new(&r2::encode(&pk, true))) {
+        Outcome::Ret(Ok(pk2)) => {
+            ctx.class("verifier_key_from_compressed_bytes");
+            check_accepts(ctx, &pk2, id, id_str, msg, &sig, d, "ref-made/key-from-compressed-bytes");
+        }
+        o => ctx.violation(&format!("Sm2PublicKey::new:valid-compressed-point:{}", oc(&o)), json!({"pk": hex::encode(r2::encode(&pk, true))})),
+    }
 }
